@@ -831,6 +831,7 @@ class parse_dssr_output_c:
     modifies = []
     locals = {"base_pairs": "list[rec[BasePair]]", "stackings": "list[rec[Stacking]]"}
     callee_variants = {"match_dssr_name_to_residue": "callee"}
+    prune_branches = True  # index normalisation / slice bounds decided by the path condition are not case-split again
     ghost_returns = {"D": "DssrDoc", "S_p": "list[int]", "P_p": "list[int]", "SS": "list[int]", "ST": "list[int]", "POS": "dict[tuple[int,int],int]"}
     ghost_entry = ["let S_p = empty('list[int]')", "let P_p = empty('list[int]')", "let SS = empty('list[int]')", "let ST = empty('list[int]')",
                    "let POS = empty('dict[tuple[int,int],int]')"]
